@@ -2,6 +2,7 @@ package props
 
 import (
 	"fmt"
+	z "github.com/Oudwins/zog"
 	"math"
 	"reflect"
 	"regexp"
@@ -367,7 +368,89 @@ func c20ZeroOrBlank(k spec.Kind, subj any, mode ref.Mode) bool {
 	return false
 }
 
+// c20SameCodeTwice: two tests of one node that share a code (and, through a Message option or a text that names no parameter, a
+// message) but not their argument each decide their own predicate: a value failing both yields both issues.
+func c20SameCodeTwice(c *core.Ctx) bool {
+	m := z.Message("not allowed here")
+	type probe struct {
+		name string
+		run  func(mode string) int
+		want int
+	}
+	var s string
+	var l []string
+	count := func(list z.ZogIssueList) int { return len(list) }
+	countMap := func(mm z.ZogIssueMap) int {
+		n := 0
+		for k, li := range mm {
+			if k != "$first" {
+				n += len(li)
+			}
+		}
+		return n
+	}
+	lower, digit := regexp.MustCompile("[a-z]"), regexp.MustCompile("[0-9]")
+	probes := []probe{
+		{"String.Not().Contains(<, m).Not().Contains(>, m) on <b>", func(mode string) int {
+			sch := z.String().Not().Contains("<", m).Not().Contains(">", m)
+			if mode == "Parse" {
+				return count(sch.Parse("<b>", &s))
+			}
+			v := "<b>"
+			return count(sch.Validate(&v))
+		}, 2},
+		{"String.Match(lower).Match(digit) on --", func(mode string) int {
+			sch := z.String().Match(lower).Match(digit)
+			if mode == "Parse" {
+				return count(sch.Parse("--", &s))
+			}
+			v := "--"
+			return count(sch.Validate(&v))
+		}, 2},
+		{"String.HasPrefix(a, m).HasPrefix(b, m).HasSuffix(c, m) on zzz", func(mode string) int {
+			sch := z.String().HasPrefix("a", m).HasPrefix("b", m).HasSuffix("c", m)
+			if mode == "Parse" {
+				return count(sch.Parse("zzz", &s))
+			}
+			v := "zzz"
+			return count(sch.Validate(&v))
+		}, 3},
+		{"Slice(String).Contains(admin, m).Contains(owner, m) on [guest]", func(mode string) int {
+			sch := z.Slice(z.String()).Contains("admin", m).Contains("owner", m)
+			if mode == "Parse" {
+				return countMap(sch.Parse([]any{"guest"}, &l))
+			}
+			v := []string{"guest"}
+			return countMap(sch.Validate(&v))
+		}, 2},
+		{"Int.GT(5, m).GT(9, m).LT(0, m) on 3", func(mode string) int {
+			var n int
+			sch := z.Int().GT(5, m).GT(9, m).LT(0, m)
+			if mode == "Parse" {
+				return count(sch.Parse(3, &n))
+			}
+			n = 3
+			return count(sch.Validate(&n))
+		}, 3},
+	}
+	for _, p := range probes {
+		for _, mode := range []string{"Parse", "Validate"} {
+			got := p.run(mode)
+			c.Eval(1)
+			if got != p.want {
+				c.Violation("test-passes-although-predicate-false|same-code-twice", map[string]any{"schema_and_value": p.name, "mode": mode, "issues_reported": got, "tests_whose_predicate_is_false": p.want})
+				return false
+			}
+		}
+	}
+	c.Count("same_code_twice_probes", len(probes)*2)
+	return true
+}
+
 func (c20) RunCase(c *core.Ctx) {
+	if c.Case == 5 && !c20SameCodeTwice(c) {
+		return
+	}
 	cfg := c20Configs[c.Case]
 	subjects := cfg.subjects(c.Tier)
 	mk := func(def any, hasDef bool) (*spec.Node, *spec.Built) {
